@@ -310,3 +310,56 @@ func VerifC08Tree() {
 	vquiesce()
 	_ = told
 }
+
+// a converted reader with an error item in the middle, merged with another source: nothing after the error is lost
+func VerifC08MergeConvertErr() {
+	vcfg("preempt", 1)
+	src, sw := Pipe[int](0)
+	items := []int{1, 2, 3, 4}
+	errAt := vchoose("errAt", 3) // which item is an error item
+	told := false
+	go func() {
+		for i, it := range items {
+			var e error
+			if i == errAt {
+				e = c08ErrItem
+			}
+			if sw.Send(it, e) {
+				told = true
+				break
+			}
+		}
+		sw.Close()
+	}()
+	conv := StreamReaderWithConvert(src, func(v int) (int, error) { return v + 100, nil })
+	other, _, _ := c08Source(1, -1, true)
+	m := MergeStreamReaders([]*StreamReader[int]{conv, other})
+	vals, errs := 0, 0
+	for k := 0; k < 8; k++ {
+		_, err := m.Recv()
+		if err == io.EOF {
+			break
+		}
+		if err != nil {
+			errs++
+		} else {
+			vals++
+		}
+	}
+	m.Close()
+	vquiesce()
+	vassert(errs == 1 && vals == len(items)-1+1, "a merged converted stream delivers every item, the error item included, and the items after it")
+	vassert(!told, "the writer is not told 'closed' while the merged reader is still open")
+}
+
+// after the reader has been closed the writer is told on its very next send, whatever the buffer holds
+func VerifC08ClosedThenSend() {
+	capacity := vchoose("cap", 3)
+	sr, sw := Pipe[int](capacity)
+	pre := vchoose("pre", capacity+1)
+	for i := 0; i < pre; i++ {
+		vassert(!sw.Send(i, nil), "send into free capacity succeeds")
+	}
+	sr.Close()
+	vassert(sw.Send(9, nil), "the writer is told on its next send that the reader has closed")
+}
